@@ -370,36 +370,23 @@ func runC05(c *eng.Ctx) {
 		c.Undecided("ORDER-delete-return", "discovery", token.NoPos, "no size-returning function that marks entries deleted found in needle_map")
 	}
 
+	// ---------------------------------------------------------------- (2b') one tombstone per deletion
+	// the replay counts every tombstone of the index file as a deletion; the running volume therefore appends one only
+	// for a key that is live (valid size), never for a key that is already deleted
+	if fn := c.NeedFunc("weed/storage", "(*Volume).doDeleteRequest"); fn != nil {
+		del := eng.Find(fn, eng.PlainCallTo("storage.NeedleMapper).Delete"))
+		live := eng.BoolCall(true, "types.Size).IsValid")
+		if len(del) == 0 {
+			c.Undecided("ABS-counters", eng.FuncName(fn)+" tombstone-only-for-live-keys", fn.Pos(), "needle map delete not found")
+		}
+		c.Guard("ABS-counters", "tombstone-only-for-live-keys", fn, eng.Entry(fn), del, eng.PassEdges(fn, live), "a tombstone is appended only for a key whose recorded size is valid (live); deleting a deleted key appends nothing")
+	}
+
 	// ---------------------------------------------------------------- (2c) the replay reads whole entries
 	// Every replay of an index file goes through idx.WalkIndexFile, which reads the file in batches and moves its file
 	// position by the bytes read: the batch must hold a whole number of entries (in both offset-width builds), and the
 	// loop must step and slice by the entry size.
-	if fn := c.NeedFunc("weed/storage/idx", "WalkIndexFile"); fn != nil {
-		entry, okE := namedConst(P, "weed/storage/types", "NeedleMapEntrySize")
-		n := 0
-		for _, in := range eng.Find(fn, eng.PlainCallTo("io.ReaderAt).ReadAt")) {
-			k := eng.BufLenOf(eng.Arg(in.(ssa.CallInstruction), 0))
-			n++
-			c.Ob("STRIDE-walk", fmt.Sprintf("%s batch-buffer#%d", eng.FuncName(fn), n), okE && entry > 0 && k > 0 && k%entry == 0, in.Pos(),
-				fmt.Sprintf("the batch buffer (%d bytes) holds a whole number of index entries (%d bytes each in this build): a partial entry at the end of a batch would be skipped and every later entry decoded out of phase", k, entry))
-		}
-		if n == 0 {
-			c.Undecided("STRIDE-walk", eng.FuncName(fn)+" batch-buffer", fn.Pos(), "batch buffer allocation not found")
-		}
-		for _, in := range eng.Find(fn, func(in ssa.Instruction) bool { b, ok := in.(*ssa.BinOp); return ok && b.Op == token.ADD }) {
-			b := in.(*ssa.BinOp)
-			if _, isPhi := b.X.(*ssa.Phi); !isPhi {
-				continue
-			}
-			k, isK := eng.ConstInt(b.Y)
-			if !isK {
-				continue
-			}
-			n++
-			c.Ob("STRIDE-walk", fmt.Sprintf("%s step#%d", eng.FuncName(fn), n), okE && k == entry, in.Pos(), "positions inside a batch advance by the entry size")
-		}
-		c.Expect("STRIDE-walk", 5)
-	}
+	strideWalk(c, "STRIDE-walk")
 
 	// ---------------------------------------------------------------- (2d) byte total rebuilt from the index file
 	// While a volume runs every put adds its size to FileByteCounter (logPut -> LogFileCounter, whatever was there before);
@@ -781,6 +768,28 @@ func lockstepExtra(c *eng.Ctx, rule string) int {
 			c.Ob(rule, fmt.Sprintf("%s#%d", base, ord[base]), found, eng.InstrPos(a.in),
 				fmt.Sprintf("the %s of the offset part of %s[i] has a twin %s of %s[i] at the same index (the 5th offset byte travels with its entry)", kind, a.arr, kind, twin[a.arr]))
 		}
+		// bulk moves: copy(dst, src) inside one of the arrays has a twin copy inside the parallel array in the same block
+		for i, in := range eng.Find(fn, eng.PlainCallTo("builtin.copy")) {
+			call := in.(*ssa.Call)
+			arr := ""
+			for _, f := range []string{"overflowExtra", "overflow", "valuesExtra", "values"} {
+				if eng.MentionsField(call.Call.Args[0], "CompactSection."+f) {
+					arr = f
+					break
+				}
+			}
+			if arr == "" {
+				continue
+			}
+			nLock++
+			found := false
+			for _, in2 := range eng.Find(fn, eng.PlainCallTo("builtin.copy")) {
+				if in2 != in && in2.Block() == in.Block() && eng.MentionsField(in2.(*ssa.Call).Call.Args[0], "CompactSection."+twin[arr]) && !(twin[arr] == "overflow" && eng.MentionsField(in2.(*ssa.Call).Call.Args[0], "CompactSection.overflowExtra")) && !(twin[arr] == "values" && eng.MentionsField(in2.(*ssa.Call).Call.Args[0], "CompactSection.valuesExtra")) {
+					found = true
+				}
+			}
+			c.Ob(rule, fmt.Sprintf("%s copy %s#%d", eng.FuncName(fn), arr, i), found, in.Pos(), "a bulk move inside "+arr+" is paired with the same move inside "+twin[arr])
+		}
 		// appends
 		for _, f := range []string{"overflow", "overflowExtra", "values", "valuesExtra"} {
 			for i, st := range eng.Find(fn, eng.StoreToField("CompactSection."+f)) {
@@ -801,4 +810,37 @@ func lockstepExtra(c *eng.Ctx, rule string) int {
 		}
 	}
 	return nLock
+}
+
+// strideWalk: idx.WalkIndexFile reads the index in batches and advances its file position by the bytes read: the batch
+// buffer holds a whole number of entries in the build at hand, and positions inside a batch step by the entry size.
+func strideWalk(c *eng.Ctx, rule string) {
+	P := c.P
+	if fn := c.NeedFunc("weed/storage/idx", "WalkIndexFile"); fn != nil {
+		entry, okE := namedConst(P, "weed/storage/types", "NeedleMapEntrySize")
+		n := 0
+		for _, in := range eng.Find(fn, eng.PlainCallTo("io.ReaderAt).ReadAt")) {
+			k := eng.BufLenOf(eng.Arg(in.(ssa.CallInstruction), 0))
+			n++
+			c.Ob(rule, fmt.Sprintf("%s batch-buffer#%d", eng.FuncName(fn), n), okE && entry > 0 && k > 0 && k%entry == 0, in.Pos(),
+				fmt.Sprintf("the batch buffer (%d bytes) holds a whole number of index entries (%d bytes each in this build): a partial entry at the end of a batch would be skipped and every later entry decoded out of phase", k, entry))
+		}
+		if n == 0 {
+			c.Undecided(rule, eng.FuncName(fn)+" batch-buffer", fn.Pos(), "batch buffer allocation not found")
+		}
+		for _, in := range eng.Find(fn, func(in ssa.Instruction) bool { b, ok := in.(*ssa.BinOp); return ok && b.Op == token.ADD }) {
+			b := in.(*ssa.BinOp)
+			if _, isPhi := b.X.(*ssa.Phi); !isPhi {
+				continue
+			}
+			k, isK := eng.ConstInt(b.Y)
+			if !isK {
+				continue
+			}
+			n++
+			c.Ob(rule, fmt.Sprintf("%s step#%d", eng.FuncName(fn), n), okE && k == entry, in.Pos(), "positions inside a batch advance by the entry size")
+		}
+		c.Expect(rule, 5)
+	}
+
 }
